@@ -189,3 +189,46 @@ func Verif_C02_RecoverThenDurable() {
 	vr.Assert(found2, "C02.recover.write_after_recovery_survives_restart")
 	vr.Reach("end")
 }
+
+// Verif_C02_AppendAcrossRestart: three process lifetimes over one log file. The first logs a write in
+// an arbitrary database; the second is a fresh store over the same file (it may or may not replay the
+// log first, as a server started with or without restore does) and logs a write in an arbitrary,
+// possibly different, possibly equal database; the third restores: both writes come back, in order,
+// each in the database it ran in — whatever database the previous lifetime ended in.
+func Verif_C02_AppendAcrossRestart() {
+	rw := &memRW{}
+	strategy := strategyOf(vr.Choose("strategy", 3))
+	st1, err := NewAppendStore(WithReadWriter(rw), WithStrategy(strategy))
+	vr.Assert(err == nil, "C02.restart_append.new")
+	n1 := 1 + vr.Choose("n1", 2)
+	var want []replayed
+	for i := 0; i < n1; i++ {
+		db := symDB("db1_" + strconv.Itoa(i))
+		cmd := symCommand("c1_" + strconv.Itoa(i))
+		vr.Assert(st1.Write(db, []byte(cmd)) == nil, "C02.restart_append.write_acknowledged")
+		want = append(want, replayed{db, cmd})
+	}
+	// second lifetime
+	st2, _ := NewAppendStore(WithReadWriter(rw), WithStrategy(strategy),
+		WithHandleCommandFunc(func(database int, command []byte) {}))
+	if vr.Choose("restore_at_startup", 2) == 1 {
+		vr.Assert(st2.Restore() == nil, "C02.restart_append.restore_succeeds")
+	}
+	db2 := symDB("db2")
+	cmd2 := symCommand("c2")
+	vr.Assert(st2.Write(db2, []byte(cmd2)) == nil, "C02.restart_append.write_acknowledged")
+	want = append(want, replayed{db2, cmd2})
+	// third lifetime
+	var got []replayed
+	st3, _ := NewAppendStore(WithReadWriter(rw), WithStrategy(strategy),
+		WithHandleCommandFunc(func(database int, command []byte) { got = append(got, replayed{database, string(command)}) }))
+	vr.Assert(st3.Restore() == nil, "C02.restart_append.restore_succeeds")
+	vr.Assert(len(got) == len(want), "C02.restart_append.every_command_is_replayed_once")
+	if len(got) == len(want) {
+		for i := range want {
+			vr.Assert(got[i].db == want[i].db, "C02.restart_append.replayed_in_the_database_it_was_logged_under")
+			vr.Assert(got[i].cmd == want[i].cmd, "C02.restart_append.replayed_bytes_equal_logged_bytes")
+		}
+	}
+	vr.Reach("end")
+}
